@@ -65,8 +65,17 @@ def write_pkg(root, name, case):
                 attrs.append("    DEFAULT = True")
             if not attrs:
                 attrs.append("    pass")
-            src.append(CLS % {"m": i, "c": j, "attrs": "\n".join(attrs),
-                              "fail": '        raise RuntimeError("constructor fails")\n' if c["ctor"] == "fails" else ""})
+            body = CLS % {"m": i, "c": j, "attrs": "\n".join(attrs),
+                          "fail": '        raise RuntimeError("constructor fails")\n' if c["ctor"] == "fails" else ""}
+            if (2 * i + j) % 3 == 0:
+                # the class lives in a library module outside the package and is imported into the package module:
+                # it is "found in the module" all the same
+                lib = "vlib_%s_%d_%d" % (name, i, j)
+                with open(os.path.join(root, lib + ".py"), "w") as f:
+                    f.write("\n".join(['import sys', '_drv = sys.modules["__main__"]', '', body]) + "\n")
+                src.append("from %s import Cls_%d_%d" % (lib, i, j))
+            else:
+                src.append(body)
         with open(os.path.join(pk, "mod%d.py" % i), "w") as f:
             f.write("\n".join(src) + "\n")
 
@@ -95,9 +104,12 @@ def run_case(root, idx, case):
     except Exception as e:  # noqa
         out = {"raises": True, "error": "%s: %s" % (type(e).__name__, str(e)[:120])}
     out["calls"] = [{"m": m, "c": c, "n": n} for (m, c), n in sorted(CALLS.items())]
-    for k in [k for k in sys.modules if k == name or k.startswith(name + ".")]:
+    for k in [k for k in sys.modules if k == name or k.startswith(name + ".") or k.startswith("vlib_" + name)]:
         del sys.modules[k]
     shutil.rmtree(os.path.join(root, name), ignore_errors=True)
+    for fn in os.listdir(root):
+        if fn.startswith("vlib_" + name):
+            os.remove(os.path.join(root, fn))
     return out
 
 
